@@ -42,7 +42,8 @@ def cases(tier):
                 out.append(f"step/{ssm}/filter/{calib}/{lin}/o1q1d1/damp_sym")
         out.append(f"step/{ssm}/filter/none/ts0/o2q2d1/damp_sym")
         out.append(f"step/{ssm}/filter/none/ts1/o2q2d1/damp_zero")
-        out.append(f"step/{ssm}/filter/none/ts0/o1q1d2/damp_zero")
+        if ssm != "dense" or tier == "thorough":      # dense d=2 with a generic 4x4 factor: minutes (thorough tier)
+            out.append(f"step/{ssm}/filter/none/ts0/o1q1d2/damp_zero")
         out.append(f"step/{ssm}/filter/dynamic_relin/{'ts0' if tier == 'quick' else 'ts1'}/o1q1d1/damp_zero")
     for ssm in cm.SSMS:
         out.append(f"grid2/{ssm}/filter/none/ts0/o1q1d1/damp_zero")
